@@ -17,7 +17,7 @@ RULE = ('Inputs: the suite\'s fixture documents and small generated documents of
         'non-trivial = distinct mutated inputs that still begin with a well-formed ISA.')
 ASSUMPTIONS = ['path-based sources are not used here (C01/C20 cover them); sinks are StringIO',
                'the step budget is 2e6 + 2000*len(text) Python function entries per run (deterministic); the wall-clock watchdog only yields inconclusive']
-REQUIRED_COUNTERS = ['runs:x12n_document', 'runs:reader', 'runs:context', 'outcome:bool', 'outcome:refused', 'inputs:mutated', 'inputs:fuzz', 'inputs:envelope-soup', 'inputs:catalogue-faults', 'inputs:catalogue-faults:qualified-datetime', 'config:simple_dtd', 'config:exclude_external_codes', 'config:map_path', 'sinks:ack+html+xml', 'sinks:none']
+REQUIRED_COUNTERS = ['runs:x12n_document', 'runs:reader', 'runs:context', 'outcome:bool', 'outcome:refused', 'inputs:mutated', 'inputs:fuzz', 'inputs:envelope-soup', 'inputs:catalogue-faults', 'inputs:catalogue-faults:qualified-datetime', 'inputs:directed-pattern-fault', 'config:simple_dtd', 'config:exclude_external_codes', 'config:map_path', 'sinks:ack+html+xml', 'sinks:none']
 MIN_CASES = {'quick': 1200, 'thorough': 40000}
 WATCHDOG_S = {'quick': 1200, 'thorough': 7200}
 
@@ -162,6 +162,29 @@ def run(ctx):
             run_context(ctx, text, None, {'directed': name, 'text': text[:3000]})
             run_context(ctx, text, '2300', {'directed': name, 'text': text[:3000]})
             n += 1
+    if ctx.shard == 1 % ctx.nshards:
+        # directed: the rare element kinds (a <regex> on the element) get a refused value in an otherwise conformant document
+        from vlib import faults, gen_doc, refmap
+        for e in gen_doc.index_entries():
+            if e['file'] == '841.4010.XXXC.xml' or not any(nd.kind == 'ele' and nd.regex for nd in refmap.walk(gen_doc.load_map(e['file']))):
+                continue
+            done = 0
+            for t in range(24):
+                if done >= 3:
+                    break
+                try:
+                    base = gen_doc.gen_document(e, zlib.crc32(repr((ctx.seed, 'c07pattern', e['file'], t)).encode()), fill=0.6, opt_prob=0.9, maxrep=1, charset='E', n_st=1)
+                except gen_doc.GenFailed:
+                    continue
+                f = faults.inject(ctx.sub_rng('c07p', e['file'], t), base, kind='bad_pattern', tries=2)
+                if f is None or len(f.doc.recs) > 900:
+                    continue
+                done += 1
+                text = f.doc.text()
+                ctx.count('inputs:directed-pattern-fault')
+                for sinks in ((1, 1, 1), (0, 0, 0), (0, 0, 1)):
+                    run_doc(ctx, text, sinks, 'E', {'directed': 'bad_pattern', 'map': e['file'], 'value': f.value, 'text': text[:3000], 'sinks': list(sinks)})
+                n += 1
     gens = corpus.generated(ctx.seed * 131 + ctx.shard, 6 if ctx.quick else 40)
     bases = [('fixture:' + nm, fx[nm]) for nm in names] + [('gen:%s:%s' % (d.mapfile, d.meta['seed']), d.text()) for d in gens]
     per = (1500 if ctx.quick else 60000) // ctx.nshards
